@@ -42,35 +42,41 @@ Proof.
 Qed.
 
 (* what one Encode does to the wire *)
-Lemma encode_bufs_spec orc : forall bufs st w st' w' e,
-  encode_bufs orc bufs st w = (st', w', e) ->
+Lemma encode_bufs_spec orc : forall bufs st w al st' w' e,
+  encode_bufs orc bufs st w al = (st', w', e) ->
   exists p, wire st' = wire st ++ p /\ is_prefix p (concat bufs) /\ w' = w + length p /\
             broken st' = broken st /\ (e = ENone -> p = concat bufs) /\
             (e = EPartial -> 0 < length p).
 Proof.
-  induction bufs as [|b rest IH]; intros st w st' w' e H; cbn in H.
+  induction bufs as [|b rest IH]; intros st w al st' w' e H; cbn [encode_bufs] in H.
   - inversion H; subst. exists []. rewrite app_nil_r. repeat split; auto using is_prefix_nil; try lia.
     discriminate.
-  - destruct (ctxw_write (orc (nw st)) b) as [n e1] eqn:Hw.
-    pose proof (ctxw_write_le _ _ _ _ Hw) as Hle.
-    destruct e1.
-    + apply ctxw_write_ok in Hw. subst n. rewrite firstn_all in H.
-      apply IH in H. destruct H as (p & Hwire & Hp & Hw' & Hb & Hok & Hpart). cbn in *.
-      exists (b ++ p). rewrite Hwire, app_assoc. repeat split; auto.
-      * now apply is_prefix_app.
-      * rewrite app_length. lia.
-      * intros ->. now rewrite Hok.
-      * intros He. specialize (Hpart He). rewrite app_length. lia.
-    + inversion H; subst; clear H. cbn. exists (firstn n b). repeat split; auto.
-      * apply is_prefix_app_r, firstn_is_prefix.
-      * rewrite firstn_length. lia.
-      * discriminate.
-      * discriminate.
-    + inversion H; subst; clear H. cbn. exists (firstn n b). repeat split; auto.
-      * apply is_prefix_app_r, firstn_is_prefix.
-      * rewrite firstn_length. lia.
-      * discriminate.
-      * intros _. apply ctxw_write_partial in Hw. rewrite firstn_length. lia.
+  - assert (Hdead : al = Some 0 -> exists p, wire st' = wire st ++ p /\ is_prefix p (concat (b :: rest)) /\
+              w' = w + length p /\ broken st' = broken st /\ (e = ENone -> p = concat (b :: rest)) /\
+              (e = EPartial -> 0 < length p)).
+    { intros ->. inversion H; subst. exists []. rewrite app_nil_r.
+      repeat split; auto using is_prefix_nil; try lia; discriminate. }
+    destruct al as [[|k]|]; [now apply Hdead| |]; clear Hdead.
+    all: destruct (ctxw_write (orc (nw st)) b) as [n e1] eqn:Hw;
+      pose proof (ctxw_write_le _ _ _ _ Hw) as Hle;
+      destruct e1;
+      [ apply ctxw_write_ok in Hw; subst n; rewrite firstn_all in H;
+        apply IH in H; destruct H as (p & Hwire & Hp & Hw' & Hb & Hok & Hpart); cbn in *;
+        exists (b ++ p); rewrite Hwire, app_assoc; repeat split; auto;
+        [ now apply is_prefix_app
+        | rewrite app_length; lia
+        | intros ->; now rewrite Hok
+        | intros He; specialize (Hpart He); rewrite app_length; lia ]
+      | inversion H; subst; clear H; cbn; exists (firstn n b); repeat split; auto;
+        [ apply is_prefix_app_r, firstn_is_prefix
+        | rewrite firstn_length; lia
+        | discriminate
+        | discriminate ]
+      | inversion H; subst; clear H; cbn; exists (firstn n b); repeat split; auto;
+        [ apply is_prefix_app_r, firstn_is_prefix
+        | rewrite firstn_length; lia
+        | discriminate
+        | intros _; apply ctxw_write_partial in Hw; rewrite firstn_length; lia ] ].
 Qed.
 
 (* one NewMessage+send on a healthy stream (fixed code) *)
@@ -81,28 +87,37 @@ Lemma send1_fixed_spec orc c f st st' r :
                (p = [] -> broken st' = false) /\ (p <> [] -> broken st' = true)).
 Proof.
   intros Hb H. unfold send1 in H. rewrite Hb in H.
-  destruct c.
-  - inversion H; subst. right. split; auto. exists []. rewrite app_nil_r.
-    repeat split; auto using is_prefix_nil; congruence.
-  - destruct (encode_bufs orc f st 0) as [[st1 w] e] eqn:He.
+  assert (Hdone : (st, SErr) = (st', r) ->
+    (r = SOk /\ wire st' = wire st ++ frame_bytes f /\ broken st' = false) \/
+    (r = SErr /\ exists p, wire st' = wire st ++ p /\ is_prefix p (frame_bytes f) /\
+               (p = [] -> broken st' = false) /\ (p <> [] -> broken st' = true))).
+  { intros E. inversion E; subst. right. split; auto. exists []. rewrite app_nil_r.
+    repeat split; auto using is_prefix_nil; congruence. }
+  assert (Henc : forall al, (let '(st1, w, e) := encode_bufs orc f st 0 al in
+             match e with ENone => (st1, SOk)
+             | _ => (mkT (wire st1) (nw st1) (sets_broken VFixed w e), SErr) end) = (st', r) ->
+    (r = SOk /\ wire st' = wire st ++ frame_bytes f /\ broken st' = false) \/
+    (r = SErr /\ exists p, wire st' = wire st ++ p /\ is_prefix p (frame_bytes f) /\
+               (p = [] -> broken st' = false) /\ (p <> [] -> broken st' = true))).
+  { intros al H'. destruct (encode_bufs orc f st 0 al) as [[st1 w] e] eqn:He.
     apply encode_bufs_spec in He. destruct He as (p & Hwire & Hp & Hw & Hbr & Hok & _).
     destruct e.
-    + inversion H; subst. left. specialize (Hok eq_refl). subst p. repeat split; auto.
-      congruence.
-    + inversion H; subst; clear H. right. split; auto. exists p. cbn. repeat split; auto.
-      * intros ->. reflexivity.
-      * intros Hne. destruct p; [congruence|]. reflexivity.
-    + inversion H; subst; clear H. right. split; auto. exists p. cbn. repeat split; auto.
-      * intros ->. reflexivity.
-      * intros Hne. destruct p; [congruence|]. reflexivity.
+    - inversion H'; subst. left. specialize (Hok eq_refl). subst p. repeat split; auto. congruence.
+    - inversion H'; subst; clear H'. right. split; auto. exists p. cbn. repeat split; auto.
+      + intros ->. reflexivity.
+      + intros Hne. destruct p; [congruence|]. reflexivity.
+    - inversion H'; subst; clear H'. right. split; auto. exists p. cbn. repeat split; auto.
+      + intros ->. reflexivity.
+      + intros Hne. destruct p; [congruence|]. reflexivity. }
+  destruct c; [apply (Henc None) | apply Hdone | apply (Henc (Some 1))]; exact H.
 Qed.
 
 (* a short write (0 < n < len) always breaks the stream, in the fixed code *)
 Lemma short_write_sets_broken orc f st st1 w :
-  broken st = false -> encode_bufs orc f st 0 = (st1, w, EPartial) ->
-  broken (fst (send1 VFixed orc false f st)) = true.
+  broken st = false -> encode_bufs orc f st 0 None = (st1, w, EPartial) ->
+  broken (fst (send1 VFixed orc CLive f st)) = true.
 Proof.
-  intros Hb He. unfold send1. rewrite Hb, He. cbn [fst broken sets_broken].
+  intros Hb He. unfold send1. rewrite Hb. cbn [alive_of]. rewrite He. cbn [fst broken sets_broken].
   apply encode_bufs_spec in He. destruct He as (p & _ & _ & Hw & _ & _ & Hpart).
   specialize (Hpart eq_refl). apply Nat.ltb_lt. lia.
 Qed.
@@ -188,18 +203,18 @@ Qed.
 (* a short write is followed by no byte at all: explicit form for one torn write *)
 Theorem after_short_write_nothing_written : forall orc ops1 f ops2 st1 rs1 st1' w,
   run VFixed orc ops1 = (st1, rs1) -> broken st1 = false ->
-  encode_bufs orc f st1 0 = (st1', w, EPartial) ->
-  forall st rs, run VFixed orc (ops1 ++ (false, f) :: ops2) = (st, rs) ->
+  encode_bufs orc f st1 0 None = (st1', w, EPartial) ->
+  forall st rs, run VFixed orc (ops1 ++ (CLive, f) :: ops2) = (st, rs) ->
   wire st = wire st1' /\ rs = rs1 ++ SErr :: map (fun _ => SNmErr) ops2.
 Proof.
   intros orc ops1 f ops2 st1 rs1 st1' w H1 Hb He st rs H.
   unfold run in *.
   rewrite (run_from_app _ _ _ _ _ _ _ H1) in H.
-  pose proof (encode_bufs_spec _ _ _ _ _ _ _ He) as (p & _ & _ & Hw & _ & _ & Hpart).
+  pose proof (encode_bufs_spec _ _ _ _ _ _ _ _ He) as (p & _ & _ & Hw & _ & _ & Hpart).
   specialize (Hpart eq_refl).
   assert (Hbr : sets_broken VFixed w EPartial = true) by (cbn [sets_broken]; apply Nat.ltb_lt; lia).
-  assert (Hs : send1 VFixed orc false f st1 = (mkT (wire st1') (nw st1') true, SErr)).
-  { unfold send1. rewrite Hb, He, Hbr. reflexivity. }
+  assert (Hs : send1 VFixed orc CLive f st1 = (mkT (wire st1') (nw st1') true, SErr)).
+  { unfold send1. rewrite Hb. cbn [alive_of]. rewrite He, Hbr. reflexivity. }
   cbn [run_from] in H. rewrite Hs in H.
   rewrite (broken_sticky VFixed orc ops2 (mkT (wire st1') (nw st1') true) eq_refl) in H.
   cbn [fst snd wire] in H. inversion H; subst. split; reflexivity.
@@ -208,8 +223,20 @@ Qed.
 Local Open Scope Z_scope.
 (* non-vacuity *)
 Example torn_example :
-  run_tbl VFixed [(1%nat, WErr 2)] [(false, [[0;0]; [1;2;3;4]]); (false, [[0;0]; [5;6;7;8]])]
+  run_tbl VFixed [(1%nat, WErr 2)] [(CLive, [[0;0]; [1;2;3;4]]); (CLive, [[0;0]; [5;6;7;8]])]
   = ([0;0;1;2], [SErr; SNmErr]).
+Proof. vm_compute. reflexivity. Qed.
+
+(* cancellation between two Writes of one frame: the header is on the wire, the segment is not;
+   the fixed code marks the stream broken, the code as found goes on *)
+Example cancel_between_writes_fixed :
+  run_tbl VFixed [] [(CCancel1, [[9;9]; [1;2;3;4]]); (CLive, [[9;9]; [5;6;7;8]])]
+  = ([9;9], [SErr; SNmErr]).
+Proof. vm_compute. reflexivity. Qed.
+
+Example cancel_between_writes_found_refuted :
+  run_tbl VFound [] [(CCancel1, [[9;9]; [1;2;3;4]]); (CLive, [[9;9]; [5;6;7;8]])]
+  = ([9;9;9;9;5;6;7;8], [SErr; SOk]).
 Proof. vm_compute. reflexivity. Qed.
 
 (* ---- refutations of the pre-fix variants ---------------------------------- *)
@@ -229,7 +256,7 @@ Qed.
 Example torn_write_stops_stream_found_refuted :
   exists orc ops st rs, run VFound orc ops = (st, rs) /\ ~ well_framed (map snd ops) st.
 Proof.
-  exists (orc_of [(0%nat, WErr 2)]), [(false, f1); (false, f2)].
+  exists (orc_of [(0%nat, WErr 2)]), [(CLive, f1); (CLive, f2)].
   eexists. eexists. split; [vm_compute; reflexivity|].
   intros (done & tail & Hw & Hs & Ht & _). cbn in *.
   specialize (Ht eq_refl). subst tail. rewrite app_nil_r in Hw.
@@ -237,7 +264,7 @@ Proof.
 Qed.
 
 Example found_sends_after_torn_write :
-  run_tbl VFound [(0%nat, WErr 2)] [(false, f1); (false, f2)] = ([1;2;5;6;7;8], [SErr; SOk]).
+  run_tbl VFound [(0%nat, WErr 2)] [(CLive, f1); (CLive, f2)] = ([1;2;5;6;7;8], [SErr; SOk]).
 Proof. vm_compute. reflexivity. Qed.
 
 (* making the assertion see through the wrapping is not enough: an error with n = 0 on the
@@ -245,7 +272,7 @@ Proof. vm_compute. reflexivity. Qed.
 Example torn_write_stops_stream_unwrap_refuted :
   exists orc ops st rs, run VUnwrap orc ops = (st, rs) /\ ~ well_framed (map snd ops) st.
 Proof.
-  exists (orc_of [(1%nat, WErr 0)]), [(false, [[9;9]; [1;2;3;4]]); (false, [[9;9]; [5;6;7;8]])].
+  exists (orc_of [(1%nat, WErr 0)]), [(CLive, [[9;9]; [1;2;3;4]]); (CLive, [[9;9]; [5;6;7;8]])].
   eexists. eexists. split; [vm_compute; reflexivity|].
   intros (done & tail & Hw & Hs & Ht & _). cbn in *.
   specialize (Ht eq_refl). subst tail. rewrite app_nil_r in Hw.
